@@ -129,7 +129,7 @@ def run(outcome, harness_map):
                     "queries": D.m.queries, "solver_s": round(D.m.solver_s, 2), "mir_functions": [D.fn_thread, D.fn_dealloc, D.fn_shared]})
     except Unknown as e:
         outcome.inconc("engine M2 could not interpret the Drop implementations: %s" % e)
-    items = [{"module": m, "name": n, "quick": True} for n, m in sorted(harness_map.items()) if re.match(r"c07_|c26_push_len", n)]
+    items = [{"module": m, "name": n, "quick": True} for n, m in sorted(harness_map.items()) if re.match(r"c07_|c26_push_len|c26_pop_len\d_cap", n)]
     frag, _ = k_check("C07", outcome, items, quick_timeout=900, thorough_timeout=1800, jobs=8)
     cov["sweep_and_pacing_kani"] = frag
     cov["evaluations"] = n_obl + frag["evaluations"]
